@@ -83,8 +83,12 @@ def gen_plan(prop, seed, tier):
         rational = rng.random() < 0.4
         if profile == "fvec" and rng.random() < 0.4:
             layout = "elevated-line"
-        ops.append({"op": "create", "layout": layout, "src": rng.randrange(8),
-                    "spec": gen_spec(rng, cls, 2, rational), "noctrl": rng.random() < 0.05})
+        noctrl = rng.random() < 0.10
+        spec = gen_spec(rng, cls, 2, rational or noctrl)
+        if noctrl and "weights" in spec and rng.random() < 0.7:
+            # a curve that carries weights only, with strongly varying weights (a lossy refit may then change sign)
+            spec["weights"] = [M.enc(Fraction(rng.choice([1, 1, 2, 5, 8, 1, 3]), rng.choice([1, 1, 3, 4, 5, 20]))) for _ in spec["weights"]]
+        ops.append({"op": "create", "layout": layout, "src": rng.randrange(8), "spec": spec, "noctrl": noctrl})
     nops = rng.randint(3, 22 if tier == "thorough" else 12)
     for _ in range(nops):
         faulty = rng.random() < cfg["fault_rate"]
@@ -324,10 +328,12 @@ class CurveEngine:
             else:
                 L = self.knots_of(spec)
                 pts = None if op.get("noctrl") else [self.mkpoint(c) for c in spec["pts"]]
-                ws = self.mkweights(spec["weights"]) if ("weights" in spec and pts is not None) else None
+                ws = self.mkweights(spec["weights"]) if "weights" in spec else None
                 if pts is not None:
                     self.remember(pts)
                 new = self.Curve(L, pts, ws)
+                if pts is None and ws is not None:
+                    ctx.probe("layout-weights-only")
         except Exception as e:  # noqa
             if layout == "independent":
                 raise HarnessError("cannot build a curve of the plan: %r" % (e,))
